@@ -691,6 +691,7 @@ fn derived_checks(sys: &mut VSys) -> Result<(), Fail> {
         }
     }
     // FilePath::from_path_and_file and Path::add_path_entry at and around the length limit
+    let mut boundary_panic: Option<Fail> = None;
     for plen in [0usize, 1, 2, 100, 200, 252, 253, 254, 255] {
         for slash in [false, true] {
             if slash && plen == 0 {
@@ -713,11 +714,14 @@ fn derived_checks(sys: &mut VSys) -> Result<(), Fail> {
                 let r = std::panic::catch_unwind(|| FilePath::from_path_and_file(&path, &file));
                 match r {
                     Err(_) => {
-                        return Err(Fail::new(
-                            "from-path-and-file-panics",
-                            "FilePath::from_path_and_file result at the length limit".to_string(),
-                            format!("from_path_and_file(path of {plen} bytes{}, file of {flen} bytes) = {} bytes panicked (debug assertion) instead of returning the path or ExceedsMaximumLength", if slash { " ending in /" } else { "" }, want.len()),
-                        ));
+                        // remember the first one and keep checking the remaining combinations
+                        if boundary_panic.is_none() {
+                            boundary_panic = Some(Fail::new(
+                                "from-path-and-file-panics",
+                                "FilePath::from_path_and_file result at the length limit".to_string(),
+                                format!("from_path_and_file(path of {plen} bytes{}, file of {flen} bytes) = {} bytes (limit 255) panicked (debug assertion in from_path_and_file_unchecked) instead of returning the path or ExceedsMaximumLength", if slash { " ending in /" } else { "" }, want.len()),
+                            ));
+                        }
                     }
                     Ok(Ok(fp)) => {
                         if want.len() > 255 || fp.as_bytes() != &want[..] || !pred_file_path(&want) {
@@ -753,7 +757,10 @@ fn derived_checks(sys: &mut VSys) -> Result<(), Fail> {
             }
         }
     }
-    Ok(())
+    match boundary_panic {
+        Some(f) => Err(f),
+        None => Ok(()),
+    }
 }
 
 pub fn new_sys(cfg: &VCfg) -> VSys {
